@@ -100,7 +100,9 @@ func VerifC05Shaped() {
 		return s
 	}
 	var data string
-	switch nd.Choice(7) {
+	switch nd.Choice(8) {
+	case 7: // a byte order mark and other invisible characters are part of the text tokens
+		data = "\ufeffa{{x}}\u200bb\ufeff"
 	case 4: // comment and raw blocks: the body is one text token, whatever it contains
 		data = "{% comment %}" + g(2) + "{% endcomment %}" + g(1)
 	case 5:
